@@ -8,6 +8,7 @@ import (
 	"net"
 	"os"
 	"path/filepath"
+	"strings"
 	"sync"
 	"sync/atomic"
 	"time"
@@ -110,7 +111,7 @@ func c11Run(c *h.Ctx) {
 	if c.Batch < 2 || c.Thorough() {
 		id := fmt.Sprintf("slow%d", c.Batch)
 		if c.Case(id) {
-			c11SlowPeer(c, id, c.Rng(id))
+			c11SlowPeer(c, id, c.Rng(id), []string{"tcp", "unix"}[c.Batch%2])
 		}
 	}
 	for s := 0; s < c.Pick(3, 20); s++ {
@@ -476,8 +477,16 @@ func c11Transport(c *h.Ctx, id string, r *rand.Rand, total int) {
 // for a while (both socket buffers fill up) and then drains everything. What the peer finally reads
 // must be a sequence of whole frames, each one sent, in order - a slow reader may delay frames but
 // must never receive half of one glued to the next.
-func c11SlowPeer(c *h.Ctx, id string, r *rand.Rand) {
-	ln, err := net.Listen("tcp4", "127.0.0.1:0")
+func c11SlowPeer(c *h.Ctx, id string, r *rand.Rand, kind string) {
+	network, addr := "tcp4", "127.0.0.1:0"
+	if kind == "unix" {
+		dir := filepath.Join(c.WorkDir, fmt.Sprintf("sock-%d", c.Batch))
+		h.MustMkdir(dir)
+		addr = filepath.Join(dir, strings.ReplaceAll(id, "/", "_")+".slow.sock")
+		os.Remove(addr)
+		network = "unix"
+	}
+	ln, err := net.Listen(network, addr)
 	if err != nil {
 		c.Inconclusive("cannot listen: " + err.Error())
 		return
@@ -488,11 +497,12 @@ func c11SlowPeer(c *h.Ctx, id string, r *rand.Rand) {
 		cn, _ := ln.Accept()
 		ach <- cn
 	}()
-	peer, err := net.Dial("tcp4", ln.Addr().String())
+	peer, err := net.Dial(network, ln.Addr().String())
 	if err != nil {
 		c.Inconclusive("cannot dial: " + err.Error())
 		return
 	}
+	defer peer.Close()
 	srv := <-ach
 	if srv == nil {
 		c.Inconclusive("accept failed")
@@ -504,12 +514,28 @@ func c11SlowPeer(c *h.Ctx, id string, r *rand.Rand) {
 	if tc, ok := peer.(*net.TCPConn); ok {
 		_ = tc.SetReadBuffer(8192)
 	}
-	tr, err := face.AcceptUnicastTCPTransport(srv, nil, face.PersistencyPersistent)
-	if err != nil {
-		c.Inconclusive("cannot build tcp transport: " + err.Error())
-		return
+	var tr interface {
+		IsRunning() bool
+		Close()
 	}
-	face.NewVerifFrameSink(tr)
+	var send func([]byte)
+	if kind == "unix" {
+		ut, err := face.MakeUnixStreamTransport(defn.MakeFDFaceURI(int(c.Batch)*1000+500+len(id)), defn.MakeUnixFaceURI(addr), srv)
+		if err != nil {
+			c.Inconclusive("cannot build unix transport: " + err.Error())
+			return
+		}
+		face.NewVerifFrameSink(ut)
+		tr, send = ut, func(f []byte) { face.VerifSendFrame(ut, f) }
+	} else {
+		tt, err := face.AcceptUnicastTCPTransport(srv, nil, face.PersistencyPersistent)
+		if err != nil {
+			c.Inconclusive("cannot build tcp transport: " + err.Error())
+			return
+		}
+		face.NewVerifFrameSink(tt)
+		tr, send = tt, func(f []byte) { face.VerifSendFrame(tt, f) }
+	}
 	nFrames := 250 + r.Intn(150)
 	var frames [][]byte
 	for k := 0; k < nFrames; k++ {
@@ -522,7 +548,7 @@ func c11SlowPeer(c *h.Ctx, id string, r *rand.Rand) {
 	go func() {
 		defer close(sendDone)
 		for _, f := range frames {
-			face.VerifSendFrame(tr, f)
+			send(f)
 		}
 	}()
 	time.Sleep(time.Duration(1300+r.Intn(500)) * time.Millisecond) // the peer is busy elsewhere
@@ -546,19 +572,20 @@ func c11SlowPeer(c *h.Ctx, id string, r *rand.Rand) {
 		c.Inconclusive("the sender did not finish within 60 s")
 		return
 	}
+	stayedUp := tr.IsRunning()
 	tr.Close()
 	<-readDone
 	c.Eval(1)
-	det := map[string]any{"plan": "tcp-slow-peer", "frames_sent": nFrames, "stream_bytes": len(stream)}
+	det := map[string]any{"plan": kind + "-slow-peer", "frames_sent": nFrames, "stream_bytes": len(stream), "transport_up_after_sending": stayedUp}
 	nodes, werr := tlvwalk.Walk(stream, 0, len(stream), nil, false)
 	if werr != nil {
-		c.Violation("C11:send-side:slow-peer-stream-not-a-frame-sequence", id, "what a slow TCP peer finally read is not a sequence of whole frames: "+werr.Error(), det)
+		c.Violation("C11:send-side:slow-peer-stream-not-a-frame-sequence", id, "what a slow "+kind+" peer finally read is not a sequence of whole frames: "+werr.Error(), det)
 		return
 	}
 	next := 0
 	for _, n := range nodes {
 		blk := stream[n.Off:n.End]
-		// frames may be dropped as a whole by a transport under pressure, never altered or reordered
+		// never altered or reordered (whether any is missing is decided below)
 		found := -1
 		for k := next; k < len(frames) && k < next+len(frames); k++ {
 			if bytes.Equal(frames[k], blk) {
@@ -568,13 +595,18 @@ func c11SlowPeer(c *h.Ctx, id string, r *rand.Rand) {
 		}
 		if found < 0 {
 			det["frame_len"] = len(blk)
-			c.Violation("C11:send-side:slow-peer-frame-altered", id, "a frame read by a slow TCP peer is not one of the frames sent (split, merged or reordered)", det)
+			c.Violation("C11:send-side:slow-peer-frame-altered", id, "a frame read by a slow "+kind+" peer is not one of the frames sent (split, merged or reordered)", det)
 			return
 		}
 		next = found + 1
 	}
+	if stayedUp && len(nodes) != len(frames) {
+		// the transport never reported an error and stayed up: every frame handed to it must arrive
+		c.Violation("C11:send-side:slow-peer-frame-lost", id, fmt.Sprintf("%d frames were sent on a %s transport that stayed up, the slow peer received %d whole frames once it read again", len(frames), kind, len(nodes)), det)
+		return
+	}
 	c.Count("slow_peer_frames", int64(len(nodes)))
-	c.Distinct("send-side|tcp-slow-peer")
+	c.Distinct("send-side|" + kind + "-slow-peer")
 }
 
 // c11SendSide: several goroutines send blocks as multi-buffer wires on ONE StreamFace; the peer
